@@ -67,6 +67,10 @@ def build():
                          opaque={"math.floor(cell_value)": lambda ex, env: env["cell_value"]},
                          canaries=[lambda ex, env: T(env["result"][0]) == T(env["result"][1])]))
 
+    # ------------------------------------------------------------------ Cell._duration_format (whole seconds, spelled-out units): contracts/C14_dur.py
+    from contracts import C14_dur
+    C14_dur.add(plan, ctx, srch)
+
     # ------------------------------------------------------------------ _unit_format
     def uf_entry(unit, abbrev):
         def entry(ex):
@@ -335,6 +339,9 @@ def build():
         functions=["_decode_date_format", "_decode_date_format_field", "DATETIME_FIELD_MAP", "Cell._duration_format", "_auto_units", "_unit_format"]))
     plan.assumptions += [
         "_auto_units is proved for whole numbers of seconds (Python ints); fractional values take the millisecond branch (stand-in)",
+        "_duration_format is proved for whole numbers of seconds 0 <= d < 2**53 (a float holding a whole number is modelled as a Python int), explicit units, "
+        "short and long style; lemma FDIV-TRUNC (int(a / b) == a // b for such integers) is assumed, with its argument; fractional durations, automatic "
+        "units composed with _auto_units and the compact style: bounded stand-in",
         "the documented meanings are those of docs/api/datetime.rst (y: the full year, as corrected by fix: e49d46d); strftime locale is C/English",
         "the format parser and _duration_format are not under contract (string induction / float division): bounded stand-in with an independent oracle",
     ]
